@@ -6,7 +6,6 @@ comma separated list `k1,v1,k2,v2,…` (`.` = empty list).
 
     http encode <pairs>                       → hex of `formEncode`
     http decode <body>                        → pairs of `formDecode`
-    http map <pairs>                          → `none` | `some <pairs>`      (`rocketMap`)
     http post <sids> <seg> <body>             → `<status> <n>` + per enqueued event
                                                  ` <sid> <name> <P:pairs|N> <C:hex|N> <data>`
     http sendbody <name> <params|N> <content|N>  → `<body hex> <form pairs>`   (`sendBody`)
@@ -121,12 +120,6 @@ def handle : List String → String
   | ["decode", body] =>
     match unhexB body with
     | some b => showPairs (formDecode b)
-    | none => "bad-op"
-  | ["map", ps] =>
-    match unPairs ps with
-    | some ps => match rocketMap ps with
-      | some m => "some " ++ showPairs m
-      | none => "none"
     | none => "bad-op"
   | ["post", sids, seg, body] =>
     match natList sids, unhexB seg, unhexB body with
